@@ -84,6 +84,11 @@ def run(ctx):
                      'state', 2)
     ctx.rule('R02f', 'an absent optional argument consumes nothing: the reader is moved back to the '
                      'first token including its leading whitespace', 2)
+    ctx.rule('R02m', 'the tokenizer\'s specials test and the by-name lookup agree: longest match, and among '
+                     'equally long ones the first category in lookup order (an overriding category also '
+                     'overrides the argument signature used for parsing)', 3)
+    ctx.rule('R02l', 'no mutable default argument is mutated: the argument list of one \\verb / verbatim call '
+                     'must not be shared with (and grow by) every other call of the process', 5)
     ctx.rule('R02k', 'a parser that collects results in a loop does not lose what it has collected when the '
                      'input ends: every token read of the helper it calls per iteration is inside a handler '
                      'for LatexWalkerEndOfStream (otherwise parse_content turns the escaping end-of-stream into '
@@ -212,6 +217,17 @@ def run(ctx):
     # ------------------------------------------------------------ R02h
     _begin_end_word_boundary(ctx, repo)
     first_tokens_complete(ctx, repo, 'R02f')
+    # ------------------------------------------------------------ R02m (shared with C14 M6 / C11 R11f)
+    from . import c14
+    cm_ = repo.mod(c14.MODULE)
+    tfs_ = cm_.methods(c14.CLASS).get('test_for_specials')
+    if tfs_ is None:
+        raise AnalysisError('anchor vanished: test_for_specials')
+    from . import c05 as _c05
+    c14._check_test_for_specials(_c05._Sub(ctx, 'R02m'), cm_, tfs_)
+    # ------------------------------------------------------------ R02l (shared with C09 R09c)
+    from . import c09, c05
+    c09._mutable_defaults(c05._Sub(ctx, 'R02l'), repo)
     # ------------------------------------------------------------ R02k (end of input after a partial read)
     _eos_after_partial_read(ctx, repo)
     # ------------------------------------------------------------ R02j (who may replace the state)
@@ -378,6 +394,48 @@ def _begin_end_word_boundary(ctx, repo):
                             'testing that the character after the word is not a macro-name letter: '
                             'macros such as \\%sgroup are read as environment tokens' % (word, word),
                             construct=cons)
+                continue
+        # helper form: beginend = <module-level helper>(s, pos) returning the word found or None
+        bd = symex.resolve(be, cs.env) if be is not None else None
+        if isinstance(be, ast.Name) and isinstance(bd, ast.Call) and isinstance(bd.func, ast.Name) and \
+                bd.func.id in tm.functions:
+            h = tm.functions[bd.func.id]
+            hp = [a.arg for a in h.args.args]
+            ren = dict(zip(hp, bd.args))
+            words_ok = True
+            words = set()
+            for hc in symex.return_cases(h):
+                if isinstance(hc.sub, ast.Constant) and hc.sub.value is None:
+                    continue
+                if not (isinstance(hc.sub, ast.Constant) and hc.sub.value in ('begin', 'end')):
+                    words_ok = False
+                    continue
+                words.add(hc.sub.value)
+                hf = symex.facts_of([(symex.subst(t_, ren), p_) for t_, p_ in hc.conds])
+                if not any(p_ and t_.startswith("s.startswith('%s'" % hc.sub.value) for t_, p_ in hf):
+                    words_ok = False
+            boundary = False
+            for a, ap in atoms:
+                if not ap:
+                    continue
+                alts = a.values if isinstance(a, ast.BoolOp) and isinstance(a.op, ast.Or) else [a]
+                for x in alts:
+                    if isinstance(x, ast.Compare) and len(x.ops) == 1 and isinstance(x.ops[0], ast.NotIn) \
+                            and unparse(x.comparators[0]).endswith('.macro_alpha_chars') \
+                            and isinstance(x.left, ast.Subscript):
+                        try:
+                            d = affine.diff(x.left.slice, posx, {})
+                        except affine.NotAffine:
+                            continue
+                        if d == (1, {'len(%s)' % be.id: 1}):
+                            boundary = True
+            present = any(ap and unparse(a) in (be.id, be.id + ' is not None') for a, ap in atoms) or \
+                any((not ap) and unparse(a) == be.id + ' is None' for a, ap in atoms)
+            if words_ok and words == {'begin', 'end'} and present:
+                ctx.decide('R02h', boundary, tm, cs.node,
+                           'the word found by %s() is followed by a non-letter test at pos + 1 + len(word)' % h.name,
+                           'an environment token is produced for the word found by %s() without testing that the '
+                           'character after it is not a macro-name letter' % h.name, construct=cons)
                 continue
         # regex form: beginend = m.group() of a compiled pattern
         rx = None
